@@ -16,6 +16,7 @@ from shapely.geometry import Polygon
 from vf import refmodel, specs
 from vf import strategies as S
 from vf.common import import_emsarray
+from vf.props._util import changed_variables, snapshot
 from vf.runner import Sub
 
 PROPERTY = "C06"
@@ -47,10 +48,26 @@ def check_spec(spec, ctx):
     with warnings.catch_warnings(record=True) as caught:
         warnings.simplefilter("always")
         ds = specs.build(spec)
+        before = snapshot(ds)
         conv = specs.bind_convention(spec, ds)
         ctx.at("C06.polygons")
         polygons = conv.polygons
         mask = conv.mask
+    # the polygons are a function of the dataset: reading them (or anything in the warm-up
+    # history) must leave every variable of the dataset bit for bit as it was
+    touched = changed_variables(ds, before)
+    ctx.check(not touched, "C06.dataset_untouched",
+              lambda: f"reading the geometry (warm-up {spec.get('warmup')}) changed dataset "
+              f"variables {touched}")
+    with warnings.catch_warnings(record=True):
+        warnings.simplefilter("always")
+        with ctx.using("C06.dataset_untouched", "polygons of a second convention object on the same dataset"):
+            again = specs.construct_convention(spec, ds).polygons
+            same = len(again) == len(polygons) and all(
+                (a is None and b is None) or (a is not None and b is not None and a.equals_exact(b, 0))
+                for a, b in zip(again, polygons))
+            ctx.check(same, "C06.dataset_untouched",
+                      "a second convention object on the same dataset reports different polygons")
     invalid_warnings = [w for w in caught if issubclass(w.category, InvalidPolygonWarning)]
 
     n_faces = refmodel.grid_size(spec, "face")
